@@ -110,4 +110,32 @@ theorem geometricNormalDecode_size (md : MeshData) (ps : PosSource) (ot : OctaT)
   case inv1 => exact ⇓? ⟨_, b⟩ => ⌜b.1.size = data.size⌝
   all_goals (try simp_all (config := { zetaDelta := true }))
 
+/-! ### the same as implications -/
+
+theorem deltaDecodeWrap_ok {wt : Leaf.WrapT} {nc : Nat} {data r : Array Int}
+    (h : deltaDecodeWrap wt nc data = .ok r) : r.size = data.size :=
+  R.ok_of_mayThrow (deltaDecodeWrap_size wt nc data) r h
+theorem parallelogramDecode_ok {md : MeshData} {wt : Leaf.WrapT} {nc : Nat} {data : Array Int} {r : Array Int × Nat}
+    (h : parallelogramDecode md wt nc data = .ok r) : r.1.size = data.size :=
+  R.ok_of_mayThrow (parallelogramDecode_size md wt nc data) r h
+theorem multiParallelogramDecode_ok {md : MeshData} {wt : Leaf.WrapT} {nc : Nat} {data : Array Int}
+    {r : Array Int × Nat} (h : multiParallelogramDecode md wt nc data = .ok r) : r.1.size = data.size :=
+  R.ok_of_mayThrow (multiParallelogramDecode_size md wt nc data) r h
+theorem constrainedMultiDecode_ok {md : MeshData} {wt : Leaf.WrapT} {nc : Nat} {crease : Array (Array Bool)}
+    {data : Array Int} {r : Array Int × Nat} (h : constrainedMultiDecode md wt nc crease data = .ok r) :
+    r.1.size = data.size :=
+  R.ok_of_mayThrow (constrainedMultiDecode_size md wt nc crease data) r h
+theorem texCoordsDecode_ok {md : MeshData} {ps : PosSource} {wt : Leaf.WrapT} {nc : Nat} {orient : Array Bool}
+    {data : Array Int} {r : Array Int × Nat} (h : texCoordsDecode md ps wt nc orient data = .ok r) :
+    r.1.size = data.size :=
+  R.ok_of_mayThrow (texCoordsDecode_size md ps wt nc orient data) r h
+theorem texCoordsDeprecatedDecode_ok {md : MeshData} {ps : PosSourceF} {pre12 : Bool} {wt : Leaf.WrapT} {nc : Nat}
+    {orient : Array Bool} {data r : Array Int}
+    (h : texCoordsDeprecatedDecode md ps pre12 wt nc orient data = .ok r) : r.size = data.size :=
+  R.ok_of_mayThrow (texCoordsDeprecatedDecode_size md ps pre12 wt nc orient data) r h
+theorem geometricNormalDecode_ok {md : MeshData} {ps : PosSource} {ot : OctaT}
+    {dec : Int × Int → Int × Int → Int × Int} {one : Bool} {fd : RAnsBitDec} {data : Array Int} {r : Array Int × Nat}
+    (h : geometricNormalDecode md ps ot dec one fd data = .ok r) : r.1.size = data.size :=
+  R.ok_of_mayThrow (geometricNormalDecode_size md ps ot dec one fd data) r h
+
 end Draco.Eb
